@@ -221,6 +221,26 @@ are apart), separated by a newline and a tab -/
 example : sanitizeStr demoHost "copied /abs/existing/q.h5ad\n\tto '/tmp/x',".toList
     = .ok "copied q.h5ad\n\tto x,".toList := by decide
 
+/-- "nested keys (`/a` and `/a/b/c`) cannot leave an absolute remainder": when an exposed
+word `k` is a *prefix* of another word (the case `Independent` excludes), replacing `k`
+rewrites the beginning of that word to `k`'s replacement, so what is left of it no longer
+starts with '/' (replacements never do, `replacement_not_absolute`; an empty replacement --
+only the word `//` has one -- is excluded). -/
+theorem nested_key_remainder (k v rest : Str) (hk : k ≠ []) (hv : v ≠ [])
+    (hvh : v.head? ≠ some '/') : (replace k v (k ++ rest)).head? ≠ some '/' := by
+  cases hkr : k ++ rest with
+  | nil => simp [List.append_eq_nil_iff] at hkr; exact absurd hkr.1 hk
+  | cons c cs =>
+    rw [replace_cons k v c cs hk, ← hkr]
+    have : k.isPrefixOf (k ++ rest) = true :=
+      List.isPrefixOf_iff_prefix.mpr (List.prefix_append k rest)
+    simp only [this, if_true]
+    cases v with
+    | nil => exact absurd rfl hv
+    | cons a as => simpa using hvh
+
+example : sanitizeStr demoHost "/abs /abs/existing/q.h5".toList = .ok "abs abs/existing/q.h5".toList := by
+  decide
 /-- "configuration sanitised up front and scratch/output directory keys removed": in a
 cloud-safe run the recorded configuration has neither `extended_result_dir` nor `tmp_dir`,
 every remaining entry is an entry of the given configuration whose value went through
